@@ -99,6 +99,13 @@ Theorem C20_threaded_stream_safe :
 Proof. exact t_stream_safe_proof. Qed.
 Print Assumptions C20_threaded_stream_safe.
 
+(* (b'') util::StringStream (the stream behind every exception message): Ensure makes exactly the
+         reserved room; numbers respecting their reservation never store beyond it *)
+Theorem C20_string_stream_safe :
+  forall kmax ops, Forall (sop_ok kmax) ops -> forall str, ss_run str ops = Some (str ++ flat_map sop_bytes ops).
+Proof. exact ss_run_safe_proof. Qed.
+Print Assumptions C20_string_stream_safe.
+
 (* ... and the constants in the headers satisfy the premises: every reservation <= kToStringMaxBytes
    <= the buffer size of BufferedStream and the block size of ThreadedBufferedStream *)
 Theorem C20_reservations_within_buffers :
